@@ -28,7 +28,7 @@ import fam_emitast
 
 ID = "C06"
 COQ_PROP = "C06"
-FAMILIES = [(fam_emitast, 1500, 12000)]
+FAMILIES = [(fam_emitast, 4000, 40000)]
 TECHNIQUE = ("Coq proof of the emitter's side (argument-list well-formedness, names/order/kinds, every parameter carries a "
              "default node, attribute and option names/order; unbounded in the parameter list) + differential correspondence "
              "of EmitAst.v + CPython as judge (compile, exec, inspect.signature, class __dict__/__annotations__, a real "
@@ -380,7 +380,7 @@ def class_request(case, clause, node):
 
 
 def oracle(rng, tier):
-    n = 400 if tier == "quick" else 5000
+    n = 700 if tier == "quick" else 6000
     cases = gen_cases(rng, n)
     failures, hist, seen = [], collections.Counter(), set()
     pending, reqs = [], []
